@@ -53,7 +53,8 @@ def main():
              "effect, pending only while the batch can still be considered, and that replaying the history rows that report an execution in this block "
              "(transfers, conversions with refunds, coinbases, burns) plus the scheduled adjustments reproduces every balance; at three seeded heights and at "
              "the tip the REAL API handlers are queried over HTTP (get-transaction-status, get-pegnet-balances, get-transactions by entry hash / address / "
-             "height through all pages): each recorded action must be returned exactly once, counts and offsets must be consistent; non-trivial = every chain",
+             "height through all pages; in addition, outside C17's statement and reported under the tag API only: get-pegnet-issuance, get-pegnet-rates, get-rich-list, get-bank "
+             "against the ledger): each recorded action must be returned exactly once, counts and offsets must be consistent; non-trivial = every chain",
         corrupt=lcheck.corrupt_balance)
 
 
